@@ -108,11 +108,12 @@ def slim(e):
 # Engine A: exhaustive round trip   MCQueue -> replay (+ probes from every state) -> TraceQueue
 # ------------------------------------------------------------------------------------------------
 def engine_A(name, kinds, nitems, maxp, probe_filter, wit, hashers=("std",), extra_probes=None,
-             wd_name=None, max_states=None):
+             wd_name=None, max_states=None, alphabet="full", probe_sample=None, seed=1):
     f = Findings()
     for kind in kinds:
-        wd = vlib.workdir((wd_name or name) + "_A_" + kind)
-        consts = {"Items": vlib.tla_set(keyset(nitems)), "MaxP": str(maxp), "Kind": vlib.tla_str(kind), "Emit": "TRUE"}
+        wd = vlib.workdir((wd_name or name) + "_A%s_" % ("" if alphabet == "full" else alphabet) + kind)
+        consts = {"Items": vlib.tla_set(keyset(nitems)), "MaxP": str(maxp), "Kind": vlib.tla_str(kind), "Emit": "TRUE",
+                  "Alphabet": vlib.tla_str(alphabet)}
         mc = vlib.run_mc("MCQueue", consts, ["WFInv", "OrdInv", "Refines", "PeekInv", "EmitInv"], wd)
         if mc["violated"]:
             raise ToolError("model-level invariant %s violated in MCQueue(%s): the specification itself is "
@@ -122,7 +123,8 @@ def engine_A(name, kinds, nitems, maxp, probe_filter, wit, hashers=("std",), ext
         f.stats["states"] += mc["distinct"]
         f.stats["transitions"] += mc["generated"]
         f.stats["engines"].append({"engine": "A", "kind": kind, "items": nitems, "priorities": maxp + 1,
-                                   "distinct_states": mc["distinct"], "transitions": mc["generated"],
+                                   "probes_per_state": probe_sample if probe_sample is not None else "all",
+                                   "alphabet": alphabet, "distinct_states": mc["distinct"], "transitions": mc["generated"],
                                    "invariants": ["WFInv", "OrdInv", "Refines", "PeekInv"]})
         probes = [p for p in mc["probes"] if probe_filter(p)]
         if extra_probes:
@@ -131,10 +133,14 @@ def engine_A(name, kinds, nitems, maxp, probe_filter, wit, hashers=("std",), ext
         if max_states and len(reps) > max_states:
             reps = reps[:max_states]
         cases = []
+        rng = random.Random(seed * 7919 + len(reps))
         for h in hashers:
             for i, r in enumerate(reps):
-                cases.append({"case": [kind, h, i], "kind": kind, "hasher": h, "universe": keyset(nitems),
-                              "steps": r["steps"], "probes": probes, "wit": wit})
+                pr = probes
+                if probe_sample is not None and len(probes) > probe_sample:
+                    pr = rng.sample(probes, probe_sample)      # seeded sample of the alphabet from this state
+                cases.append({"case": [kind, h, alphabet, i], "kind": kind, "hasher": h, "universe": keyset(nitems),
+                              "steps": r["steps"], "probes": pr, "wit": wit})
         if cases:
             f.samples.append({"engine": "A", "kind": kind, "history": cases[len(cases) // 2]["steps"],
                               "probes_from_that_state": len(probes)})
@@ -146,7 +152,10 @@ def engine_A(name, kinds, nitems, maxp, probe_filter, wit, hashers=("std",), ext
 # Engine B: long seeded random histories over larger universes (sizes the exhaustive scope
 # cannot reach), validated by the same trace specification
 # ------------------------------------------------------------------------------------------------
-def random_history(rng, kind, nkeys, nops, ranks, weights=None, check_every=20):
+def random_history(rng, kind, nkeys, nops, ranks, weights=None, check_every=20, sorted_every=None):
+    if sorted_every is None:
+        # a behavioural witness (a clone drained by pops) after every step for the smaller universes
+        sorted_every = 1 if nkeys <= 40 else 4
     keys = ["k%d" % i for i in range(nkeys)]
     pops = ["pop"] if kind == "pq" else ["pop_min", "pop_max"]
     popifs = ["pop_if"] if kind == "pq" else ["pop_min_if", "pop_max_if"]
@@ -190,7 +199,8 @@ def random_history(rng, kind, nkeys, nops, ranks, weights=None, check_every=20):
             steps.append({"op": "retain_mut", "keep": keep, "set": st, "wp": rng.randint(0, 1)})
         elif o == "iter_mut":
             st = {x: rk() for x in keys if rng.random() < 0.3}
-            steps.append({"op": "iter_mut", "n": rng.randint(0, nkeys), "set": st, "wp": rng.randint(0, 1),
+            steps.append({"op": "iter_mut", "n": rng.choice([0, 0, 1, 2, nkeys // 2, nkeys]),
+                          "nb": rng.choice([0, 0, 1, 2, nkeys]), "set": st, "wp": rng.randint(0, 1),
                           "forget": False, "via_ref": rng.random() < 0.3})
         elif o == "extend":
             m = rng.randint(0, max(1, nkeys // 2))
@@ -207,6 +217,7 @@ def random_history(rng, kind, nkeys, nops, ranks, weights=None, check_every=20):
             steps.append({"op": "convert"})
         if check_every and i % check_every == check_every - 1:
             steps.append({"op": "contents"})
+        if sorted_every and i % sorted_every == sorted_every - 1:
             if kind == "pq":
                 steps.append({"op": "sorted", "mode": rng.choice(["pop", "vec"])})
             else:
